@@ -32,6 +32,9 @@ type updRec struct {
 	buf   []byte
 	beh   []byte // behaviour code of the i-th invocation (missing = return nil)
 	dec   *corebgp.UpdateDecoder[*updRec]
+	// reenter, if set, runs inside the i-th invocation before it returns (a callback that uses the same
+	// decoder for another message: a plugin shared by two peers, a nested decode)
+	reenter func(i int)
 }
 
 func (r *updRec) record(kind, typ, flags byte, b []byte) error {
@@ -42,6 +45,9 @@ func (r *updRec) record(kind, typ, flags byte, b []byte) error {
 	}
 	r.calls = append(r.calls, updCall{kind: kind, typ: typ, flags: flags, off: len(r.buf), n: len(b), ret: ret})
 	r.buf = append(r.buf, b...)
+	if r.reenter != nil {
+		r.reenter(i)
+	}
 	return ret
 }
 
